@@ -1,8 +1,11 @@
-(* Proofs/DelaunayFacts.v — lemmas about Model/Delaunay.v (C03). *)
-From Coq Require Import List ZArith Bool Arith Lia ZifyBool QArith.
+(* Proofs/DelaunayFacts.v — lemmas about Model/Delaunay.v (C03).
+   incircle_correct / circumcentre_equidistant: the exact predicates mean what they should (over Q);
+   check_delaunay_sound / check_dual_sound: what the certificate checkers establish. *)
+From Coq Require Import List ZArith Bool Arith Lia ZifyBool QArith Psatz.
 From Koala Require Import Model.Lattice Model.Delaunay.
 Import ListNotations.
 Open Scope Z_scope.
+
 
 (* the in-circle determinant in terms of the circumcentre offset u = cc_off a b c and o = orient2d a b c:
    4 o incircle(a,b,c,d) = |u|^2 - |2 o (d - a) - u|^2 *)
@@ -14,4 +17,430 @@ Lemma incircle_identity : forall a b c d : pt,
 Proof.
   intros [ax ay] [bx by_] [cx cy] [dx dy].
   cbv [incircle cc_r2num cc_off orient2d fst snd]. ring.
+Qed.
+
+
+Lemma qdist2_cc : forall (a b c p : pt), 0 < orient2d a b c ->
+  let o2 := 2 * orient2d a b c in
+  let u := cc_off a b c in
+  (qdist2 (qpt p) (circumcentre a b c) ==
+   inject_Z ((o2 * (fst p - fst a) - fst u) * (o2 * (fst p - fst a) - fst u)
+           + (o2 * (snd p - snd a) - snd u) * (o2 * (snd p - snd a) - snd u)) / inject_Z (o2 * o2))%Q.
+Proof.
+  intros a b c p Ho o2 u.
+  assert (Hpos : 0 < o2) by (unfold o2; lia).
+  unfold qdist2, circumcentre, qpt; fold o2; fold u. cbn [fst snd].
+  set (D := Z.to_pos o2).
+  assert (HD : Zpos D = o2) by (unfold D; rewrite Z2Pos.id; lia).
+  unfold Qeq, Qdiv, Qinv, inject_Z; cbn [Qnum Qden].
+  destruct (o2 * o2) eqn:E; try lia.
+  repeat (unfold Qmult, Qplus, Qminus, Qopp; cbn [Qnum Qden]). rewrite ?Pos2Z.inj_mul, ?HD.
+  assert (Zpos p0 = o2 * o2) by lia. rewrite H. ring.
+Qed.
+
+Lemma qdiv_lt : forall x y k : Z, 0 < k ->
+  ((inject_Z x / inject_Z k < inject_Z y / inject_Z k)%Q <-> x < y).
+Proof.
+  intros x y k Hk. unfold Qlt, Qdiv, Qmult, Qinv, inject_Z; cbn [Qnum Qden].
+  destruct k; try lia. cbn [Qnum Qden]. nia.
+Qed.
+
+Lemma qdiv_eq : forall x y k : Z, 0 < k ->
+  ((inject_Z x / inject_Z k == inject_Z y / inject_Z k)%Q <-> x = y).
+Proof.
+  intros x y k Hk. unfold Qeq, Qdiv, Qmult, Qinv, inject_Z; cbn [Qnum Qden].
+  destruct k; try lia. cbn [Qnum Qden]. nia.
+Qed.
+
+Lemma incircle_correct : forall a b c d : pt, 0 < orient2d a b c ->
+  (0 < incircle a b c d <->
+   (qdist2 (qpt d) (circumcentre a b c) < qdist2 (qpt a) (circumcentre a b c))%Q).
+Proof.
+  intros a b c d Ho.
+  rewrite (qdist2_cc a b c d Ho), (qdist2_cc a b c a Ho).
+  rewrite qdiv_lt by nia.
+  pose proof (incircle_identity a b c d) as Hid. unfold cc_r2num in Hid.
+  set (o := orient2d a b c) in *. set (u := cc_off a b c) in *.
+  set (I := incircle a b c d) in *.
+  replace (fst a - fst a) with 0 by ring. replace (snd a - snd a) with 0 by ring.
+  nia.
+Qed.
+
+Lemma circumcentre_equidistant : forall a b c : pt, 0 < orient2d a b c ->
+  (qdist2 (qpt b) (circumcentre a b c) == qdist2 (qpt a) (circumcentre a b c))%Q /\
+  (qdist2 (qpt c) (circumcentre a b c) == qdist2 (qpt a) (circumcentre a b c))%Q.
+Proof.
+  intros a b c Ho.
+  rewrite (qdist2_cc a b c b Ho), (qdist2_cc a b c c Ho), (qdist2_cc a b c a Ho).
+  rewrite !qdiv_eq by nia.
+  destruct a as [ax ay], b as [bx by_], c as [cx cy].
+  cbv [cc_off orient2d fst snd]. split; ring.
+Qed.
+
+
+(* ---------- ranges ---------- *)
+Lemma zrange_In : forall n lo x, In x (zrange lo n) <-> lo <= x < lo + Z.of_nat n.
+Proof.
+  induction n as [|n IH]; intros lo x; cbn [zrange In].
+  - lia.
+  - rewrite IH. lia.
+Qed.
+
+Lemma window_In : forall w x, 0 <= w -> (In x (window w) <-> - w <= x <= w).
+Proof. intros w x Hw. unfold window. rewrite zrange_In. lia. Qed.
+
+(* ---------- far lemma: outside the verified box => not strictly inside the circumdisc ---------- *)
+Lemma far_x : forall a b c bx x y, 0 < orient2d a b c -> box_ok a b c bx = true ->
+  x_out bx x = true -> incircle a b c (x, y) <= 0.
+Proof.
+  intros a b c [[[lox hix] loy] hiy] x y Ho Hb Hx.
+  pose proof (incircle_identity a b c (x, y)) as Hid. cbn [fst snd] in Hid.
+  unfold box_ok in Hb. unfold x_out in Hx.
+  set (o := orient2d a b c) in *. set (u := cc_off a b c) in *. set (r2 := cc_r2num a b c) in *.
+  set (I := incircle a b c (x, y)) in *.
+  set (X := 2 * o * (x - fst a) - fst u) in *.
+  set (Y := 2 * o * (y - snd a) - snd u) in *.
+  assert (HX : r2 < X * X).
+  { destruct (x <? lox) eqn:E1.
+    - set (lx := fst u - 2 * o * (lox - fst a)) in *.
+      assert (0 <= lx /\ r2 <= lx * lx) by lia.
+      assert (lx < - X) by (unfold lx, X; nia). nia.
+    - set (hx := 2 * o * (hix - fst a) - fst u) in *.
+      assert (0 <= hx /\ r2 <= hx * hx) by lia.
+      assert (hx < X) by (unfold hx, X; nia). nia. }
+  assert (0 <= Y * Y) by nia. nia.
+Qed.
+
+Lemma far_y : forall a b c bx x y, 0 < orient2d a b c -> box_ok a b c bx = true ->
+  y_out bx y = true -> incircle a b c (x, y) <= 0.
+Proof.
+  intros a b c [[[lox hix] loy] hiy] x y Ho Hb Hy.
+  pose proof (incircle_identity a b c (x, y)) as Hid. cbn [fst snd] in Hid.
+  unfold box_ok in Hb. unfold y_out in Hy.
+  set (o := orient2d a b c) in *. set (u := cc_off a b c) in *. set (r2 := cc_r2num a b c) in *.
+  set (I := incircle a b c (x, y)) in *.
+  set (X := 2 * o * (x - fst a) - fst u) in *.
+  set (Y := 2 * o * (y - snd a) - snd u) in *.
+  assert (HY : r2 < Y * Y).
+  { destruct (y <? loy) eqn:E1.
+    - set (ly := snd u - 2 * o * (loy - snd a)) in *.
+      assert (0 <= ly /\ r2 <= ly * ly) by lia.
+      assert (ly < - Y) by (unfold ly, Y; nia). nia.
+    - set (hy := 2 * o * (hiy - snd a) - snd u) in *.
+      assert (0 <= hy /\ r2 <= hy * hy) by lia.
+      assert (hy < Y) by (unfold hy, Y; nia). nia. }
+  assert (0 <= X * X) by nia. nia.
+Qed.
+
+(* every periodic image of a seed of [0,S)^2, at ANY integer offset *)
+Lemma seed_ok_all : forall S w a b c bx p,
+  0 < S -> 0 <= w -> 0 < orient2d a b c -> box_ok a b c bx = true -> box_in_window S w bx = true ->
+  0 <= fst p < S -> 0 <= snd p < S ->
+  seed_ok S w a b c bx p = true ->
+  forall ox oy : Z, incircle a b c (fst p + S * ox, snd p + S * oy) <= 0.
+Proof.
+  intros S w a b c bx p HS Hw Ho Hb Hwin Hpx Hpy Hs ox oy.
+  destruct (x_out bx (fst p + S * ox)) eqn:Ex; [ now apply far_x with (bx := bx) |].
+  destruct (y_out bx (snd p + S * oy)) eqn:Ey; [ now apply far_y with (bx := bx) |].
+  destruct bx as [[[lox hix] loy] hiy].
+  unfold box_in_window in Hwin. unfold x_out in Ex. unfold y_out in Ey.
+  assert (Hox : - w <= ox <= w) by nia.
+  assert (Hoy : - w <= oy <= w) by nia.
+  unfold seed_ok in Hs. rewrite forallb_forall in Hs.
+  specialize (Hs ox (proj2 (window_In w ox Hw) Hox)). cbn beta zeta in Hs.
+  unfold x_out in Hs. 
+  apply orb_true_iff in Hs. destruct Hs as [Hs | Hs]; [ lia |].
+  rewrite forallb_forall in Hs.
+  specialize (Hs oy (proj2 (window_In w oy Hw) Hoy)). cbn beta zeta in Hs.
+  unfold y_out in Hs.
+  apply orb_true_iff in Hs. destruct Hs as [Hs | Hs]; lia.
+Qed.
+
+
+(* ---------- decidable equalities ---------- *)
+Lemma pt_eqb_eq : forall p q : pt, pt_eqb p q = true <-> p = q.
+Proof. intros [a b] [c d]. unfold pt_eqb; cbn [fst snd]. split; intro H; [ f_equal; lia | inversion H; lia ]. Qed.
+
+Lemma skey_eqb_eq : forall k l : skey, skey_eqb k l = true <-> k = l.
+Proof.
+  intros [[i j] d] [[i' j'] d']. unfold skey_eqb; cbn [fst snd].
+  rewrite !andb_true_iff, !Nat.eqb_eq, pt_eqb_eq.
+  split; [ intros [[-> ->] ->]; reflexivity | intro H; inversion H; auto ].
+Qed.
+
+Lemma natpair_eqb_eq : forall a b : nat * nat, natpair_eqb a b = true <-> a = b.
+Proof.
+  intros [a1 a2] [b1 b2]. unfold natpair_eqb; cbn [fst snd].
+  rewrite andb_true_iff, !Nat.eqb_eq. split; [ intros [-> ->]; reflexivity | intro H; inversion H; auto ].
+Qed.
+
+Lemma nodup_by_NoDup : forall (A : Type) (eqb : A -> A -> bool),
+  (forall x, eqb x x = true) -> forall l, nodup_by eqb l = true -> NoDup l.
+Proof.
+  intros A eqb Hrefl. induction l as [|x r IH]; intro H; [ constructor |].
+  cbn [nodup_by] in H. apply andb_true_iff in H. destruct H as [H1 H2].
+  constructor; [| now apply IH ].
+  intro Hin. apply negb_true_iff in H1.
+  assert (existsb (eqb x) r = true) by (apply existsb_exists; exists x; auto). congruence.
+Qed.
+
+Lemma nodupb_NoDup : forall l : list nat, nodupb l = true -> NoDup l.
+Proof.
+  induction l as [|x r IH]; intro H; [ constructor |].
+  cbn [nodupb] in H. apply andb_true_iff in H. destruct H as [H1 H2].
+  constructor; [| now apply IH ].
+  intro Hin. apply negb_true_iff in H1.
+  assert (existsb (Nat.eqb x) r = true) by (apply existsb_exists; exists x; split; [ auto | apply Nat.eqb_refl ]). congruence.
+Qed.
+
+(* ---------- check_delaunay ---------- *)
+(* what a validated certificate entry means *)
+Definition tri_delaunay (S : Z) (pts : list pt) (t : tri) : Prop :=
+  let a := site_pos S pts (t_a t) in let b := site_pos S pts (t_b t) in let c := site_pos S pts (t_c t) in
+  (s_idx (t_a t) < length pts)%nat /\ (s_idx (t_b t) < length pts)%nat /\ (s_idx (t_c t) < length pts)%nat /\
+  0 < orient2d a b c /\
+  forall (p : pt) (ox oy : Z), In p pts -> incircle a b c (fst p + S * ox, snd p + S * oy) <= 0.
+
+Lemma pts_in_cell_spec : forall S pts, pts_in_cell S pts = true ->
+  forall p, In p pts -> 0 <= fst p < S /\ 0 <= snd p < S.
+Proof. intros S pts H p Hp. unfold pts_in_cell in H. rewrite forallb_forall in H. specialize (H p Hp). lia. Qed.
+
+Lemma tri_ok_sound : forall S w pts t bx,
+  0 < S -> 0 <= w -> pts_in_cell S pts = true ->
+  tri_ok S w pts (t, bx) = true -> tri_delaunay S pts t.
+Proof.
+  intros S w pts t bx HS Hw Hcell H.
+  unfold tri_ok, tri_pts in H.
+  repeat (apply andb_true_iff in H; destruct H as [H ?]).
+  unfold tri_delaunay, site_wf in *. repeat split; try lia.
+  intros p ox oy Hp.
+  destruct (pts_in_cell_spec S pts Hcell p Hp) as [Hpx Hpy].
+  match goal with Hs : forallb _ pts = true |- _ => rewrite forallb_forall in Hs; specialize (Hs p Hp) end.
+  eapply seed_ok_all with (w := w) (bx := bx); eauto; lia.
+Qed.
+
+Theorem check_delaunay_sound : forall S w pts C,
+  check_delaunay S w pts C = true ->
+  0 < S /\
+  (forall p, In p pts -> 0 <= fst p < S /\ 0 <= snd p < S) /\
+  (forall t bx, In (t, bx) C -> tri_delaunay S pts t) /\
+  NoDup (all_sides C) /\
+  (forall k, In k (all_sides C) -> In (skey_rev k) (all_sides C)) /\
+  length C = (2 * length pts)%nat /\
+  area2_sum S pts C = 2 * S * S.
+Proof.
+  intros S w pts C H. unfold check_delaunay in H.
+  repeat (apply andb_true_iff in H; destruct H as [H ?]).
+  assert (HS : 0 < S) by lia. assert (Hw : 0 <= w) by lia.
+  split; [ exact HS |].
+  split; [ now apply pts_in_cell_spec |].
+  split.
+  { intros t bx Hin.
+    match goal with Hf : forallb (tri_ok S w pts) C = true |- _ => rewrite forallb_forall in Hf; specialize (Hf _ Hin) end.
+    eapply tri_ok_sound; eauto. }
+  match goal with Hp : sides_paired C = true |- _ => unfold sides_paired in Hp; apply andb_true_iff in Hp; destruct Hp as [Hp1 Hp2] end.
+  split.
+  { apply nodup_by_NoDup with (eqb := skey_eqb); [ intro x; now apply skey_eqb_eq | exact Hp1 ]. }
+  split.
+  { intros k Hk. rewrite forallb_forall in Hp2. specialize (Hp2 k Hk).
+    apply existsb_exists in Hp2. destruct Hp2 as [y [Hy1 Hy2]]. apply skey_eqb_eq in Hy2. now subst. }
+  split; lia.
+Qed.
+
+
+(* ---------- check_dual ---------- *)
+Definition in_cell_P (S : Z) (r : pt * Z) : Prop :=
+  0 < snd r /\ 0 < fst (fst r) <= snd r * S /\ 0 < snd (fst r) <= snd r * S.
+Definition pos_close_P (tolS : Z) (p : pt) (r : pt * Z) : Prop :=
+  Z.abs (snd r * fst p - fst (fst r)) <= snd r * tolS /\ Z.abs (snd r * snd p - snd (fst r)) <= snd r * tolS.
+
+(* site p is site p' translated by the cell offset cr *)
+Definition site_shift (p p' : site) (cr : pt) : Prop :=
+  s_idx p = s_idx p' /\ fst (s_off p') + fst cr = fst (s_off p) /\ snd (s_off p') + snd cr = snd (s_off p).
+(* side s of t, traversed p -> q, is side s' of (t' translated by cr) traversed q -> p *)
+Definition side_shared (t t' : tri) (cr : pt) (s s' : nat) : Prop :=
+  site_shift (fst (tri_side t s)) (snd (tri_side t' s')) cr /\
+  site_shift (snd (tri_side t s)) (fst (tri_side t' s')) cr.
+
+Lemma site_shift_pos : forall S pts p p' cr, site_shift p p' cr ->
+  site_pos S pts p = (fst (site_pos S pts p') + S * fst cr, snd (site_pos S pts p') + S * snd cr).
+Proof.
+  intros S pts [i o] [i' o'] cr [Hi [Hx Hy]]. unfold site_pos, s_idx, s_off in *. cbn [fst snd] in *.
+  subst i'. f_equal; nia.
+Qed.
+
+Lemma site_shift_eqb_spec : forall p p' cr, site_shift_eqb p p' cr = true -> site_shift p p' cr.
+Proof. intros p p' cr H. unfold site_shift_eqb in H. unfold site_shift. lia. Qed.
+
+Lemma sides_match_spec : forall t t' cr s s', sides_match t t' cr s s' = true -> side_shared t t' cr s s'.
+Proof.
+  intros t t' cr s s' H. unfold sides_match in H. unfold side_shared.
+  destruct (tri_side t s) as [p q]. destruct (tri_side t' s') as [q' p']. cbn [fst snd].
+  apply andb_true_iff in H. destruct H as [H1 H2].
+  split; now apply site_shift_eqb_spec.
+Qed.
+
+Lemma find_match_spec : forall t t' cr s s', find_match t t' cr = Some (s, s') ->
+  (s < 3)%nat /\ (s' < 3)%nat /\ side_shared t t' cr s s'.
+Proof.
+  intros t t' cr s s' H. unfold find_match in H. apply find_some in H. destruct H as [Hin Hm].
+  cbn [fst snd] in Hm. apply sides_match_spec in Hm.
+  unfold side_pairs in Hin. cbn [In] in Hin.
+  repeat (destruct Hin as [Hin | Hin]; [ inversion Hin; subst; split; [ lia | split; [ lia | exact Hm ] ] |]).
+  destruct Hin.
+Qed.
+
+Lemma used_sides_spec : forall C vt es crs us,
+  used_sides C vt es crs = Some us ->
+  length us = (2 * length es)%nat /\
+  forall e, (e < length es)%nat ->
+    let u := fst (nth e es (0, 0)%nat) in let v := snd (nth e es (0, 0)%nat) in
+    exists s s', (s < 3)%nat /\ (s' < 3)%nat /\
+      nth (2 * e) us (0, 0)%nat = (nth u vt 0%nat, s) /\
+      nth (2 * e + 1) us (0, 0)%nat = (nth v vt 0%nat, s') /\
+      side_shared (nth_tri C (nth u vt 0%nat)) (nth_tri C (nth v vt 0%nat)) (nth e crs (0, 0)) s s'.
+Proof.
+  intros C vt. induction es as [|[u v] es IH]; intros crs us H.
+  - cbn in H. inversion H; subst. split; [ reflexivity | intros e He; cbn in He; lia ].
+  - cbn [used_sides] in H. destruct crs as [|cr crs]; [ discriminate |].
+    destruct (find_match (nth_tri C (nth u vt 0%nat)) (nth_tri C (nth v vt 0%nat)) cr) as [[s s']|] eqn:Ef; [| discriminate ].
+    destruct (used_sides C vt es crs) as [r|] eqn:Er; [| discriminate ].
+    inversion H; subst us. destruct (IH crs r Er) as [Hlen Hall].
+    split; [ cbn [length]; lia |].
+    intros e He. destruct e as [|e].
+    + cbn [nth fst snd]. destruct (find_match_spec _ _ _ _ _ Ef) as [Hs [Hs' Hsh]].
+      exists s, s'. split; [ exact Hs |]. split; [ exact Hs' |]. split; [ reflexivity |]. split; [ reflexivity | exact Hsh ].
+    + cbn [length] in He. assert (He' : (e < length es)%nat) by lia.
+      specialize (Hall e He'). cbn zeta in Hall. destruct Hall as [s1 [s1' [H1 [H2 [H3 [H4 H5]]]]]].
+      cbn [nth]. exists s1, s1'. split; [ exact H1 |]. split; [ exact H2 |]. split; [| split; [| exact H5 ] ].
+      * replace (2 * S e)%nat with (S (S (2 * e))) by lia. cbn [nth]. exact H3.
+      * replace (2 * S e + 1)%nat with (S (S (2 * e + 1))) by lia. cbn [nth]. exact H4.
+Qed.
+
+Lemma used_sides_range : forall C vt n es crs us,
+  used_sides C vt es crs = Some us ->
+  (forall e, In e es -> (fst e < length vt)%nat /\ (snd e < length vt)%nat) ->
+  (forall i, In i vt -> (i < n)%nat) ->
+  forall x, In x us -> (fst x < n)%nat /\ (snd x < 3)%nat.
+Proof.
+  intros C vt n. induction es as [|[u v] es IH]; intros crs us H Hwf Hvt x Hx.
+  - cbn in H. inversion H; subst. destruct Hx.
+  - cbn [used_sides] in H. destruct crs as [|cr crs]; [ discriminate |].
+    destruct (find_match (nth_tri C (nth u vt 0%nat)) (nth_tri C (nth v vt 0%nat)) cr) as [[s s']|] eqn:Ef; [| discriminate ].
+    destruct (used_sides C vt es crs) as [r|] eqn:Er; [| discriminate ].
+    inversion H; subst us. destruct (find_match_spec _ _ _ _ _ Ef) as [Hs [Hs' _]].
+    destruct (Hwf (u, v) (or_introl eq_refl)) as [Hu Hv]. cbn [fst snd] in Hu, Hv.
+    destruct Hx as [Hx | [Hx | Hx]].
+    + subst x. cbn [fst snd]. split; [ apply Hvt, nth_In; exact Hu | exact Hs ].
+    + subst x. cbn [fst snd]. split; [ apply Hvt, nth_In; exact Hv | exact Hs' ].
+    + eapply IH; eauto. intros e He. apply Hwf. now right.
+Qed.
+
+Lemma combine_nth_In : forall (A B : Type) (l : list A) (l' : list B) n a b,
+  (n < length l)%nat -> (n < length l')%nat -> In (nth n l a, nth n l' b) (combine l l').
+Proof.
+  intros A B. induction l as [|x l IH]; intros l' n a b H1 H2; [ cbn in H1; lia |].
+  destruct l' as [|y l']; [ cbn in H2; lia |].
+  destruct n as [|n]; cbn; [ now left | right; apply IH; cbn in *; lia ].
+Qed.
+
+Lemma wf_lattice_edges : forall L, wf_lattice L = true ->
+  forall e, In e (edges L) -> (fst e < nV L)%nat /\ (snd e < nV L)%nat.
+Proof.
+  intros L H e He. unfold wf_lattice in H. apply andb_true_iff in H. destruct H as [_ H].
+  rewrite forallb_forall in H. specialize (H e He). unfold wf_edge in H. lia.
+Qed.
+
+Definition tri_of (C : list (tri * box)) (vt : list nat) (v : nat) : tri := nth_tri C (nth v vt 0%nat).
+Definition tri_ref (S : Z) (shift : bool) (pts : list pt) (t : tri) : pt * Z :=
+  ref_point shift (site_pos S pts (t_a t)) (site_pos S pts (t_b t)) (site_pos S pts (t_c t)).
+
+Theorem check_dual_sound : forall S tolS shift pts C L vt,
+  check_dual S tolS shift pts C L vt = true ->
+  wf_lattice L = true /\ scale L = S /\
+  (* vertices <-> triangles: vt is a bijection {0..nV-1} -> {0..|C|-1} *)
+  length vt = nV L /\ nV L = length C /\ NoDup vt /\ (forall i, In i vt -> (i < length C)%nat) /\
+  (* every triangle is positively oriented and its reference point lies in the unit cell (0,1]^2 *)
+  (forall t bx, In (t, bx) C ->
+     0 < orient2d (site_pos S pts (t_a t)) (site_pos S pts (t_b t)) (site_pos S pts (t_c t)) /\
+     in_cell_P S (tri_ref S shift pts t)) /\
+  (* every vertex sits (within tolS) at the reference point of its triangle *)
+  (forall v, (v < nV L)%nat -> pos_close_P tolS (pos_at L v) (tri_ref S shift pts (tri_of C vt v))) /\
+  (2 * nE L = 3 * length C)%nat /\
+  (* every edge is dual to a side shared by the triangles of its two ends, offset = crossing;
+     the (triangle, side) slots used by the 2E edge ends are pairwise distinct and exhaust all 3|C| slots *)
+  exists us, used_sides C vt (edges L) (crossing L) = Some us /\ NoDup us /\
+    (forall e, (e < nE L)%nat ->
+       exists s s', (s < 3)%nat /\ (s' < 3)%nat /\
+         nth (2 * e) us (0, 0)%nat = (nth (fst (edge_at L e)) vt 0%nat, s) /\
+         nth (2 * e + 1) us (0, 0)%nat = (nth (snd (edge_at L e)) vt 0%nat, s') /\
+         side_shared (tri_of C vt (fst (edge_at L e))) (tri_of C vt (snd (edge_at L e))) (cross_at L e) s s') /\
+    (forall t s, (t < length C)%nat -> (s < 3)%nat -> In (t, s) us).
+Proof.
+  intros S tolS shift pts C L vt H. unfold check_dual in H.
+  destruct (used_sides C vt (edges L) (crossing L)) as [us|] eqn:Eus; [| rewrite andb_false_r in H; discriminate ].
+  apply andb_true_iff in H; destruct H as [H Hnd].
+  apply andb_true_iff in H; destruct H as [H Hne].
+  apply andb_true_iff in H; destruct H as [H Hpos].
+  apply andb_true_iff in H; destruct H as [H Hcell].
+  apply andb_true_iff in H; destruct H as [H Hndv].
+  apply andb_true_iff in H; destruct H as [H Hrg].
+  apply andb_true_iff in H; destruct H as [H Hl2].
+  apply andb_true_iff in H; destruct H as [H Hl1].
+  apply andb_true_iff in H; destruct H as [Hwf Hsc].
+  assert (Hlen1 : length vt = nV L) by lia.
+  assert (Hlen2 : nV L = length C) by lia.
+  assert (Hrange : forall i, In i vt -> (i < length C)%nat).
+  { intros i Hi. rewrite forallb_forall in Hrg. specialize (Hrg i Hi). lia. }
+  split; [ exact Hwf |]. split; [ lia |]. split; [ exact Hlen1 |]. split; [ exact Hlen2 |].
+  split; [ now apply nodupb_NoDup |]. split; [ exact Hrange |].
+  split.
+  { intros t bx Hin.
+    rewrite forallb_forall in Hcell. specialize (Hcell _ Hin).
+    cbn [fst] in Hcell. unfold tri_pts in Hcell.
+    apply andb_true_iff in Hcell; destruct Hcell as [Ho Hc].
+    split; [ lia |]. unfold tri_ref, in_cell_P. unfold in_cell in Hc.
+    destruct (ref_point shift _ _ _) as [[nx ny] m]. cbn [fst snd]. lia. }
+  split.
+  { intros v Hv.
+    rewrite forallb_forall in Hpos.
+    specialize (Hpos (nth v (pos L) vzero, nth v vt 0%nat) (combine_nth_In _ _ (pos L) vt v vzero 0%nat Hv ltac:(lia))).
+    cbn [fst snd] in Hpos. unfold tri_pts in Hpos.
+    unfold tri_of, tri_ref, pos_close_P, pos_at.
+    unfold pos_close in Hpos.
+    destruct (ref_point shift _ _ _) as [[nx ny] m]. cbn [fst snd]. lia. }
+  split; [ lia |].
+  exists us. split; [ reflexivity |].
+  assert (HND : NoDup us).
+  { apply nodup_by_NoDup with (eqb := natpair_eqb); [ intro x; now apply natpair_eqb_eq | exact Hnd ]. }
+  split; [ exact HND |].
+  destruct (used_sides_spec C vt (edges L) (crossing L) us Eus) as [Hlen Hall].
+  split.
+  { intros e He. specialize (Hall e He). cbn zeta in Hall. exact Hall. }
+  intros t s Ht Hs.
+  assert (Hincl : incl us (list_prod (seq 0 (length C)) (seq 0 3))).
+  { intros [x1 x2] Hx. apply in_prod; apply in_seq.
+    - destruct (used_sides_range C vt (length C) (edges L) (crossing L) us Eus) with (x := (x1, x2)) as [Ha Hb]; auto.
+      + intros e He. rewrite Hlen1. now apply wf_lattice_edges.
+      + cbn [fst] in Ha. lia.
+    - destruct (used_sides_range C vt (length C) (edges L) (crossing L) us Eus) with (x := (x1, x2)) as [Ha Hb]; auto.
+      + intros e He. rewrite Hlen1. now apply wf_lattice_edges.
+      + cbn [snd] in Hb. lia. }
+  assert (Hle : (length (list_prod (seq 0 (length C)) (seq 0 3)) <= length us)%nat).
+  { rewrite prod_length, !seq_length. unfold nE in *. lia. }
+  apply (NoDup_length_incl HND Hle Hincl).
+  apply in_prod; apply in_seq; lia.
+Qed.
+
+(* counts: 2N vertices, 3N edges; with N plaquettes V - E + F = 0 (torus) *)
+Lemma dual_counts : forall S w tolS shift pts C L vt,
+  check_delaunay S w pts C = true -> check_dual S tolS shift pts C L vt = true ->
+  nV L = (2 * length pts)%nat /\ nE L = (3 * length pts)%nat /\
+  Z.of_nat (nV L) - Z.of_nat (nE L) + Z.of_nat (length pts) = 0.
+Proof.
+  intros S w tolS shift pts C L vt H1 H2.
+  apply check_delaunay_sound in H1. apply check_dual_sound in H2.
+  destruct H1 as (_ & _ & _ & _ & _ & Hc & _).
+  destruct H2 as (_ & _ & _ & Hv & _ & _ & _ & _ & He & _).
+  lia.
 Qed.
